@@ -63,7 +63,7 @@ pub fn run(ctx: &mut Ctx) {
         }
     };
     for k in OPS {
-        for n in 0..=6usize {
+        for n in 0..=(if ctx.tier_thorough { 9usize } else { 6usize }) {
             if !ctx.mine() {
                 continue;
             }
@@ -82,7 +82,8 @@ pub fn run(ctx: &mut Ctx) {
                 }
             }
             // every tuple over V0 (constant fill above three operands)
-            let tuples: Vec<Vec<Value>> = if n <= 3 { al::tuples(&v0, n) } else { v0.iter().map(|x| vec![x.clone(); n]).collect() };
+            let full_to = if ctx.tier_thorough { 4 } else { 3 };
+            let tuples: Vec<Vec<Value>> = if n <= full_to { al::tuples(&v0, n) } else { v0.iter().map(|x| vec![x.clone(); n]).collect() };
             for t in tuples {
                 ctx.edge();
                 let r = op(k, t);
